@@ -532,7 +532,8 @@ class SqfsImage:
              "ids": s["id_count"], "frags": s["frag_count"], "comp": s["comp_id"],
              "flags": self.flagset, "file_len_mod4k": len(self.data) % 4096,
              "has_frag_tbl": s["frag_tbl"] != INVALID64, "has_export": s["export_tbl"] != INVALID64,
-             "has_xattr": s["xattr_tbl"] != INVALID64}
+             "has_xattr": s["xattr_tbl"] != INVALID64,
+             "comp_opts_len": -1 if self.comp_opts is None else len(self.comp_opts)}
         order = [("data", self.data_start), ("inode", s["inode_tbl"]), ("dir", s["dir_tbl"])]
         for k, name in (("frag_tbl", "frag"), ("export_tbl", "export"), ("id_tbl", "id"), ("xattr_tbl", "xattr")):
             if s[k] != INVALID64:
